@@ -119,7 +119,7 @@ def numbers_md(sec):
 * **Validation of the analyser** (`selftest.sh`, not a registered command):
   unchanged tree silent for all 20; {nmut} hand-written mutants (incl. combined
   ones: a behaviour-preserving refactoring plus one broken instance);
-  {len(metas)} changes seeded by sub-agents that saw only a property's text, in seven
+  {len(metas)} changes seeded by sub-agents that saw only a property's text, in eight
   rounds ({st('detected')} detected, {st('undecided')} undecided, {st('missed')} missed); {nrev} reverted `fix:` commits
   reported again; {nben} behaviour-preserving patches x 20 properties without an
   alarm. §10."""
